@@ -635,9 +635,11 @@ fn gen_mint(r: &mut Rng, out: &mut Out, thorough: bool) {
 }
 fn gen_txin(r: &mut Rng, pool: u64) -> String { let id = r.below(pool); format!("{} {}", hx(&fill(id, 70, 32)), (id % 3) + r.below(2)) }
 fn gen_tx(r: &mut Rng, out: &mut Out, thorough: bool) {
-    for _ in 0..(if thorough { 500 } else { 110 }) {
+    for _ in 0..(if thorough { 600 } else { 160 }) {
         let mut line = String::from("tx");
-        let ni = r.range(1, 5); line += &format!(" I {}", ni); for _ in 0..ni { line += &format!(" {}", gen_txin(r, 8)); }
+        // regular inputs; sometimes one of them is also the reference input of a script source (must then not be a reference input)
+        let ni = r.range(1, 5); line += &format!(" I {}", ni);
+        for _ in 0..ni { if r.chance(1, 5) { let sid = 1 + 2 * r.below(2); line += &format!(" {} {}", hx(&fill(sid, 60, 32)), sid); } else { line += &format!(" {}", gen_txin(r, 8)); } }
         let nc = r.below(3); line += &format!(" C {}", nc); for _ in 0..nc { line += &format!(" {}", gen_txin(r, 8)); }
         line += &format!(" F {}", r.below(2));
         let nsi = r.below(4); line += &format!(" SI {}", nsi);
